@@ -6,6 +6,18 @@ From Helm Require Import Values.Tree Chart.Paths Chart.Archive Chart.Files.
 Import ListNotations.
 Local Open Scope string_scope.
 
+(* the loop over the dependencies: the entries of each, in order; stops at the first failure *)
+Definition deps_loop (f : chart -> option (list tentry)) : list chart -> option (list tentry) :=
+  fix go (l : list chart) : option (list tentry) :=
+    match l with
+    | [] => Some []
+    | d :: t =>
+        match f d with
+        | None => None
+        | Some es => match go t with Some r => Some (es ++ r)%list | None => None end
+        end
+    end.
+
 Section Save.
   (* third-party: sigs.k8s.io/yaml, encoding/json, Masterminds/semver, unicode tables *)
   Variable md_enc : meta -> string.          (* yaml.Marshal(c.Metadata) *)
@@ -63,15 +75,7 @@ Section Save.
     | Some e_schema =>
         let e_tpl := map (fun f => tar_entry (path_join base (f_name f)) (f_data f)) (c_templates c) in
         let e_files := map (fun f => tar_entry (path_join base (f_name f)) (f_data f)) (c_files c) in
-        match (fix deps (l : list chart) : option (list tentry) :=
-                 match l with
-                 | [] => Some []
-                 | d :: t =>
-                     match write_tar_contents (path_join base "charts") d with
-                     | None => None
-                     | Some es => match deps t with Some r => Some (es ++ r)%list | None => None end
-                     end
-                 end) (c_deps c) with
+        match deps_loop (write_tar_contents (path_join base "charts")) (c_deps c) with
         | None => None
         | Some e_deps => Some (e_chart ++ e_lock ++ e_vals ++ e_schema ++ e_tpl ++ e_files ++ e_deps)%list
         end
